@@ -73,7 +73,11 @@ func (comp DefaultCompiler) Compile(stmts []*gripql.GraphStatement, opts *gdbi.C
 	ps := pipeline.NewPipelineState(stmts)
 	if opts != nil {
 		ps.LastType = opts.PipelineExtension
-		ps.MarkTypes = opts.ExtensionMarkTypes
+		// copy: the statements compiled below add their own marks, the caller's
+		// map (the mark types of a stored job) must stay as it is
+		for k, v := range opts.ExtensionMarkTypes {
+			ps.MarkTypes[k] = v
+		}
 	}
 
 	procs := make([]gdbi.Processor, 0, len(stmts))
